@@ -447,7 +447,8 @@ def resolve_source(events, upto, loc, depth=8):
         # projections / casts / derefs of a base local: ((_229.0: T).0: U) as *const X (Transmute), copy (*_80), ...
         m = re.match(r"(?:move |copy |&(?:mut )?)?[(*&]*(_\d+)", st)
     if m and depth > 0:
-        return resolve_source(events, upto, m.group(1), depth - 1)
+        r = resolve_source(events, upto, m.group(1), depth - 1)
+        return src if r.startswith("?") else r
     return src
 
 
@@ -1042,25 +1043,10 @@ def mode_flags(ctx, mir, stats):
         if not wc:
             continue
         i, ev = wc[0]
-        src = resolve_source(p.events, i, ev[4][2])
-        m = re.match(r"Option::<u8>::Some\((?:move|copy) (_\d+)\)$", src)
-        if not m or not restricted:
-            raise Inconclusive("ENCODING-FAILED: request mode argument not recognised: %s" % src)
-        val = None
-        for e2 in p.events[:i]:
-            if e2[0] == "assign" and e2[2].strip() == m.group(1):
-                val = e2[4] if e2[4] is not None else val
-                if e2[4] is None:
-                    # moved from another local
-                    mm = re.match(r"(?:move|copy) (_\d+)$", e2[3])
-                    if mm:
-                        for e3 in p.events[:i]:
-                            if e3[0] == "assign" and e3[2].strip() == mm.group(1) and e3[4] is not None:
-                                val = e3[4]
-        if val is None:
-            val = p.env.get(m.group(1))
-        if val is None:
-            raise Inconclusive("ENCODING-FAILED: request mode value not encodable")
+        loc = re.sub(r"^(move|copy) ", "", ev[4][2]).strip()
+        val = p.env.get("((%s as Some).0: u8)" % loc)
+        if val is None or not restricted:
+            raise Inconclusive("ENCODING-FAILED: request mode argument is not Some(<u8 expression>)")
         n += 1
         verdict, mdl, smt = se.check(p, [z3.Not(z3.And((val == 1) == (restricted[0] == 1), z3.Or(val == 0, val == 1)))], "request flag")
         obs.append({"id": "x224::connect:request-flag", "ok": verdict == "unsat", "functions": [f.name],
@@ -1933,4 +1919,93 @@ def bitmap_dispatch(ctx, mir, stats):
                         "detail": "only FASTPATH_UPDATETYPE_BITMAP (1) leads to the callback; other kinds go on to the next update" if reach == ["1"] else "update kinds reaching the callback: %s" % reach, "where": f.name})
             others = [l for l, t in labs.items() if l != "1" and outer not in bfs_reach(f, t) and not any(f.blocks[x].t["kind"] == "return" for x in bfs_reach(f, t))]
             obs.append({"id": "read_fast_path:other-kinds-continue", "ok": not others, "functions": [f.name], "detail": "every other update kind continues with the next update" if not others else "kinds %s neither continue nor return" % others, "where": f.name})
+    return obs
+
+
+# --------------------------------------------------------------------------
+# C03: order of the connection sequence and wiring of server-assigned identifiers
+# --------------------------------------------------------------------------
+def _seq_on_success(f, stats, relevant, loop_bound=1):
+    se = SymExec(f, stats, loop_bound=loop_bound, max_paths=20000).run()
+    out = []
+    for p in se.finished:
+        ret = _last_assign_to_ret(p) or ""
+        if re.search(r"Err\(|from_residual", ret):
+            continue
+        calls = [(i, e) for i, e in enumerate(p.events) if e[0] == "call" and re.search(relevant, e[2])]
+        out.append((p, calls))
+    return out
+
+
+def connection_sequence(ctx, mir, stats):
+    obs = []
+    # --- MCS connect
+    f = find_fn(mir, r"^mcs::<impl at src/core/mcs\.rs[^>]*>::connect$")
+    rel = r"write_connect_initial$|read_connect_response$|^erect_domain_request$|^attach_user_request$|^channel_join_request$|x224::Client::<S>::write|x224::Client::<S>::read$|^read_attach_user_confirm$|^read_channel_join_confirm$"
+    paths = _seq_on_success(f, stats, rel)
+    if not paths:
+        raise Inconclusive("ENCODING-FAILED: no successful path through mcs::Client::connect")
+    head = ["write_connect_initial", "read_connect_response", "erect_domain_request", "x224::Client::<S>::write", "attach_user_request", "x224::Client::<S>::write", "x224::Client::<S>::read", "read_attach_user_confirm"]
+    join = ["channel_join_request", "x224::Client::<S>::write", "x224::Client::<S>::read", "read_channel_join_confirm"]
+    for p, calls in paths:
+        names = [re.sub(r"::<(Vec<.*>|u8)>$", "", re.sub(r"^mcs::Client::<S>::", "", e[2])) for i, e in calls]
+        ok = names[:len(head)] == head
+        rest = names[len(head):]
+        while ok and rest:
+            ok = rest[:4] == join
+            rest = rest[4:]
+        obs.append({"id": "mcs::connect:order[%d joins]" % ((len(names) - len(head)) // 4), "ok": ok, "functions": [f.name],
+                    "detail": "connect-initial, connect-response, erect-domain, attach-user request, attach-user confirm, then per channel: join request, join confirm - each sent only after the reply it depends on" if ok else "MCS sequence is %s" % names,
+                    "where": f.name, "path": p.trace})
+        # identifiers: user id stored from the confirm and used in the join request / confirm check
+        ev = p.events
+        st = [(k, e) for k, e in enumerate(ev) if e[0] == "assign" and re.search(r"\(\(\*_1\)\.\d+: std::option::Option<u16>\)$", e[2].strip())]
+        src_ok = any("read_attach_user_confirm" in resolve_source(ev, k + 1, e[3], depth=12) for k, e in st)
+        obs.append({"id": "mcs::connect:user-id-from-confirm", "ok": src_ok, "functions": [f.name], "detail": "the user id kept by the client is the one the attach-user confirm carried" if src_ok else "user id is not taken from the attach-user confirm", "where": f.name})
+        for i, e in calls:
+            if re.search(r"^channel_join_request$", e[2]):
+                a0 = resolve_source(ev, i, e[4][0], depth=8)
+                okj = bool(re.search(r"\(\*_1\)\.\d+: std::option::Option<u16>", a0))
+                obs.append({"id": "mcs::connect:join-carries-user-id", "ok": okj, "functions": [f.name], "detail": "each channel-join request carries the server-assigned user id" if okj else "join request initiator comes from %s" % a0[:80], "where": f.name})
+            if re.search(r"^read_channel_join_confirm$", e[2]):
+                a0 = resolve_source(ev, i, e[4][0], depth=8)
+                okc = "(*_1)" in a0 and "Option<u16>" in a0 or "unwrap" in a0
+                obs.append({"id": "mcs::connect:confirm-checked-against-user-id", "ok": bool(okc), "functions": [f.name], "detail": "the join confirm is checked against the assigned user id and the requested channel" if okc else "confirm checked against %s" % a0[:80], "where": f.name})
+    # every step is guarded: each protocol call is reachable only through the Ok edge of the previous read/write
+    steps = [b for b in f.order if not f.blocks[b].cleanup and f.blocks[b].t and f.blocks[b].t["kind"] == "call" and re.search(r"write_connect_initial$|read_connect_response$|x224::Client::<S>::(write|read)|^read_attach_user_confirm$|^read_channel_join_confirm$", f.blocks[b].t["func"])]
+    for b in steps:
+        rs = result_switch(f, b)
+        if not rs:
+            obs.append({"id": "mcs::connect:result-checked[%s]" % b, "ok": False, "functions": [f.name], "detail": "the result of %s is not examined" % f.blocks[b].t["func"][-50:], "where": f.name})
+    obs.append({"id": "mcs::connect:every-step-checked", "ok": all(result_switch(f, b) for b in steps), "functions": [f.name], "detail": "the result of each of the %d protocol steps is examined before the next one" % len(steps), "where": f.name})
+    # --- Connector::connect
+    g = find_fn(mir, r"^client::<impl at src/core/client\.rs[^>]*>::connect$")
+    relg = r"x224::Client::<S>::connect$|mcs::Client::<S>::connect$|^connect::<S>$|global::Client::new$|get_user_id$|get_global_channel_id$"
+    want = ["x224::Client::<S>::connect", "mcs::Client::<S>::connect", "connect::<S>", "mcs::Client::<S>::get_user_id", "mcs::Client::<S>::get_global_channel_id", "global::Client::new"]
+    for p, calls in _seq_on_success(g, stats, relg):
+        names = [e[2] for i, e in calls]
+        ok = names == want
+        obs.append({"id": "Connector::connect:order", "ok": ok, "functions": [g.name], "detail": "negotiation, MCS connect, Client Info + licensing, then the global channel is created with the assigned user id and channel id" if ok else "sequence is %s" % names, "where": g.name})
+        if ok:
+            gi, ge = calls[-1]
+            a0 = resolve_source(p.events, gi, ge[4][0], depth=6)
+            a1 = resolve_source(p.events, gi, ge[4][1], depth=6)
+            okw = "get_user_id" in a0 and "get_global_channel_id" in a1
+            obs.append({"id": "Connector::connect:ids-wired", "ok": okw, "functions": [g.name], "detail": "global::Client::new(user id from MCS, global channel id from MCS, ...)" if okw else "global client built from %s / %s" % (a0[:60], a1[:60]), "where": g.name})
+    # --- finalization order and shutdown
+    h = find_fn(mir, r"^global::<impl at src/core/global\.rs[^>]*>::write_client_finalize$")
+    sh = SymExec(h, stats).run()
+    best = max(sh.finished, key=lambda p: len(p.events))
+    seq = [e[2] for e in best.events if e[0] == "call" and re.search(r"^ts_synchronize_pdu$|^ts_control_pdu$|^ts_font_list_pdu$", e[2])]
+    acts = [resolve_source(best.events, i, e[4][0], depth=4) for i, e in calls_on(best.events, r"^ts_control_pdu$")]
+    okf = seq == ["ts_synchronize_pdu", "ts_control_pdu", "ts_control_pdu", "ts_font_list_pdu"] and len(acts) == 2 and "CtrlactionCooperate" in acts[0] and "CtrlactionRequestControl" in acts[1]
+    obs.append({"id": "write_client_finalize:order", "ok": okf, "functions": [h.name], "detail": "synchronize, control-cooperate, control-request, font-list" if okf else "finalization is %s %s" % (seq, acts), "where": h.name})
+    sd = find_fn(mir, r"^mcs::<impl at src/core/mcs\.rs[^>]*>::shutdown$")
+    ssd = SymExec(sd, stats).run()
+    best = max(ssd.finished, key=lambda p: (len(calls_on(p.events, r"x224::Client::<S>::shutdown$")), len(p.events)))
+    wr = calls_on(best.events, r"x224::Client::<S>::write")
+    sdn = calls_on(best.events, r"x224::Client::<S>::shutdown$")
+    hdr = [resolve_source(best.events, i, e[4][0], depth=4) for i, e in calls_on(best.events, r"^mcs_pdu_header$")]
+    oks = len(wr) == 1 and len(sdn) == 1 and wr[0][0] < sdn[0][0] and any("DisconnectProviderUltimatum" in x for x in hdr)
+    obs.append({"id": "mcs::shutdown:ultimatum-then-close", "ok": oks, "functions": [sd.name], "detail": "shutdown sends one disconnect-provider ultimatum and then closes the transport" if oks else "shutdown does %s / %s" % ([e[2] for i, e in wr + sdn], hdr), "where": sd.name})
     return obs
